@@ -13,8 +13,8 @@ RULE = (
     "flavours; resource mixes: 50% pure-kind (thread+main or async-thread+main) and 50% mixed; controlled schedules "
     "only (sampled and exhaustive choice trees). oracle: at every truly blocking wait call of the scheduler (no "
     "awaited future already done): in-flight == max_concurrency, or no un-dispatched node is ready, or a sequential "
-    "node is in flight, or a maximal-priority ready node is sequential. The known exception class (thread-kind wait "
-    "directly after an async-kind wait with no dispatch in between) is counted under excluded_as_known_finding. "
+    "node is in flight, or a maximal-priority ready node is sequential; waits with a zero timeout (polls) never block and are not judged. The former known exception (blocking thread-kind wait "
+    "directly after an async-kind wait with no dispatch in between, repaired by fix 8f7c4c9) is an ordinary violation (rule idle-K1) now. "
     "non-trivial = the case has >= 1 blocking wait with a free slot (justified) and >= 1 with in-flight == max_concurrency."
 )
 ASSUMPTIONS = [
@@ -47,7 +47,7 @@ def run_shard(H: Harness) -> None:
 
 MANIFEST = {
     "engine": "sched",
-    "technique": "property-based testing with controlled schedules: every wait call of the real scheduler is intercepted and judged against a ready-set / in-flight model; known finding carved out by class key",
-    "level_text": "Exploration. Every blocking wait of the scheduler is intercepted, so the no-idle predicate is evaluated at exactly the points where the scheduler idles; completion orders are sampled or enumerated. The one known violation class (K1) is excluded by construction and counted; any other unjustified wait is a violation.",
-    "level_note": "Thorough tier additionally enumerates a complete small scope (every DAG on 4 ordered nodes x the property's own dimension - priorities / sequential subsets / failing node - with the whole completion-order tree of each). Trusted: interposed wait primitives and the knowledge model; the K1 class key is defined structurally (thread wait right after an async wait, no dispatch in between).",
+    "technique": "property-based testing with controlled schedules: every wait call of the real scheduler is intercepted and judged against a ready-set / in-flight model",
+    "level_text": "Exploration. Every blocking wait of the scheduler is intercepted, so the no-idle predicate is evaluated at exactly the points where the scheduler idles; completion orders are sampled or enumerated. Every unjustified wait is a violation (the formerly known class K1 - one wait per kind with both kinds in flight - was repaired in the repository and its witness is part of the regression corpus).",
+    "level_note": "Thorough tier additionally enumerates a complete small scope (every DAG on 4 ordered nodes x the property's own dimension - priorities / sequential subsets / failing node - with the whole completion-order tree of each). Trusted: interposed wait primitives and the knowledge model; mixed-kind DAGs are judged like all others.",
 }
